@@ -291,36 +291,41 @@ def run(ctx):
     behaviours = res.replays
     if not behaviours:
         raise ToolError("TLC printed no behaviours")
-    execute(ctx, behaviours, "c31")
+    pairs, obs = execute(ctx, behaviours, "c31")
     if not ctx.quick:
-        selftest(ctx, behaviours)
+        selftest(ctx, behaviours, pairs, obs)
     ctx.cov["rule"] = ("every finished behaviour of the EndpointInfo spec (exhaustive over the configured address lists x user-data "
                        "patterns x {packet, txt}, plus the foreign TXT lists); non-trivial = has an address, user data or is foreign")
     ctx.cov["exhaustive"] = True
     ctx.assume("address texts round-trip through Display/FromStr (C02); simple_dns writes one TXT RR per string with name compression")
 
 
-def selftest(ctx, behaviours):
-    """Binding self-test: a flipped expectation must be rejected by the judge."""
+def selftest(ctx, behaviours, pairs, obs):
+    """Binding self-test: a flipped expectation / a corrupted observation must be rejected by the judge."""
+    import contextlib
     import copy
+    import io
     n = 0
-    for b in behaviours:
-        if b["via"] == "txt" and b["out"]["st"] == "ok" and b["ud"]["some"] and b["ud"]["s"] and not has_eq(b):
+    for b, (case, exp), o in zip(behaviours, pairs, obs):
+        if not (b["via"] in ("txt", "packet") and b["out"]["st"] == "ok" and b["ud"]["some"] and b["ud"]["s"]
+                and b["out"]["addrs"] and not has_eq(b)):
+            continue
+        for variant in ("ud", "addr", "status"):
             sub = type(ctx)(ctx.prop, ctx.tier, ctx.seed)
             sub.scratch, sub.quiet, sub.findings = ctx.scratch, True, []
             sub.replay = ctx.path("selftest-replay.json")   # report() then writes no replay file
-            bb = copy.deepcopy(b)
-            case, exp = concretise(sub, 0, bb)
-            outp = ctx.path("c31-self.out")
-            ctx.run_bin("vh_lookup", ["c31", "--in", ctx.write_ndjson("c31-self.in", [case]), "--out", outp])
-            o = ctx.read_ndjson(outp)[0]
-            exp["ud"] = exp["ud"] + "x"          # flipped expectation
-            import io, contextlib
+            e2, o2 = copy.deepcopy(exp), copy.deepcopy(o)
+            if variant == "ud":
+                e2["ud"] = e2["ud"] + "x"                   # flipped expectation
+            elif variant == "addr":
+                o2["addrs"] = o2["addrs"][1:]               # an address lost on the way
+            else:
+                o2["st"] = "UnexpectedFormat"               # resolving failed
             with contextlib.redirect_stdout(io.StringIO()):
-                judge(sub, bb, case, exp, o)
+                judge(sub, b, case, e2, o2)
             if not sub.violations:
-                raise ToolError("binding self-test: a flipped expectation was not rejected")
+                raise ToolError("binding self-test: corrupted case (%s) was accepted" % variant)
             n += 1
-            if n >= 3:
-                break
+        if n >= 9:
+            break
     ctx.cov["binding_selftests"] = n
